@@ -38,17 +38,17 @@ CHECKS["C07"] = dict(
 
 CHECKS["C08"] = dict(
     category="proof",
-    text=("Partial. Lean theorems: (L0) the kernel regenerated from uniform_reservoir_storage.py has Algorithm L's shape (slot for range "
-          "`size`, weight multiplied first, next skip drawn from the updated weight; skipped arrivals change nothing); (L2) with the "
-          "moments of U^(1/k) as only input every accept/reject history has the probability of independent Bernoulli(k/t) "
-          "acceptances; (L1) for that chain, for every k>=1, n>=k and every set A of arrivals P(A in reservoir) = prod (k-i)/(n-i), "
-          "hence k/n per observation and 1/C(n,k) per k-subset; one generated accepting step summed over its slot outcomes is the "
-          "chain's step. Not proved in Lean: the analytic bridge from real-valued uniform draws (two integrals) — trusted."),
+    text=("Lean theorems: (L0) the kernel regenerated from uniform_reservoir_storage.py has Algorithm L's shape (slot for range `size`, weight "
+          "multiplied first, next skip drawn from the updated weight; skipped arrivals change nothing); (analytic bridge, Mathlib measure "
+          "theory) the moments of U^(1/k) are k/(k+m) and the skip floor(log U/log(1-w)) is geometric = a run of Bernoulli(w) rejections; "
+          "(L2) with those moments every accept/reject history has the probability of independent Bernoulli(k/t) acceptances; (L1) for that "
+          "chain, for every k>=1, n>=k and every set A of arrivals P(A in reservoir) = prod (k-i)/(n-i), hence k/n per observation and "
+          "1/C(n,k) per k-subset; one generated accepting step summed over its slot outcomes is the chain's step. Still partial: the "
+          "composition of the layers rests on the independence of successive library draws, which is assumed, not modelled."),
     design_ref="DESIGN.md section 6, C08",
-    note=("Trusted: Lean kernel; standard axioms; py2lean (validated each run); analytic bridge E[(U^(1/k))^m]=k/(k+m), geometric law of "
-          "floor(log U/log(1-w)), independence and uniformity of library draws. The fixed-seed frequency test only searches for a "
-          "failing input."),
-    technique="Lean 4 theorems (generated kernel shape + finite-probability induction) + translation validation",
+    note=("Trusted: Lean kernel; standard axioms; py2lean (validated each run); independence of successive draws; random.random() uniform on "
+          "[0,1) (2^-53 granularity ignored); randrange uniform. The fixed-seed frequency test only searches for a failing input."),
+    technique="Lean 4 theorems (generated kernel shape + measure-theoretic bridge + finite-probability induction) + translation validation",
 )
 CHECKS["C09"] = dict(
     category="proof",
@@ -140,7 +140,7 @@ CHECKS["C06"] = dict(
 )
 CHECKS["C11"] = dict(
     category="proof",
-    text=("Lean theorems about the ring-buffer model for every k>=1 and stream: present entries are a permutation of the last min(n,k) "
+    text=("Lean theorems: the ring-buffer bookkeeping regenerated from sliding_window.py IS the modelled one; for every k>=1 and stream: present entries are a permutation of the last min(n,k) "
           "inputs, count, mean, variance, std (non-negative root) of exactly those. Tied to sliding_window.py by running the real class "
           "after every update for k<=5, all lengths <= 3k+2; construction on the installed NumPy is part of the run."),
     design_ref="DESIGN.md section 6, C11", note=TRUST_H + " np.nanmean/nanvar/nanstd semantics (NumPy) are trusted; comparison within 1e-9 (binary64 buffer).",
@@ -168,7 +168,7 @@ CHECKS["C15"] = dict(
 )
 CHECKS["C16"] = dict(
     category="proof",
-    text=("27 Lean theorems: normalisation keeps keys and ratios, sums to one ('sum'), has range one ('delta'), is all zero for a zero "
+    text=("28 Lean theorems: the confidence-bound expression regenerated from base.py IS the modelled one; normalisation keeps keys and ratios, sums to one ('sum'), has range one ('delta'), is all zero for a zero "
           "normaliser; confidence bound = (1-a)^t + sqrt(var a/((2-a) delta)), non-negative, positive when a<1 or var>0, antitone in delta "
           "(genuine square root; instantiated for Real.sqrt); tracked variances are >= 0 in every reachable PFI/SAGE state (static, or "
           "0<=alpha<=1). 'Never NaN or infinite whatever numeric type' is decided by a numeric-type sweep on the real code."),
